@@ -1157,6 +1157,52 @@ def _reaches_from_entry(fn, target, avoid):
     return False
 
 
+DTOR_GUARDS_OK = {
+    ('graphite2::GlyphCache::~GlyphCache', '_glyph_loader'): 'glyphs and boxes are one block each when preloaded, one allocation per glyph when loaded lazily: the loader pointer tells which',
+    ('graphite2::GlyphCache::~GlyphCache', '_glyphs'): 'null test of the array whose elements are released',
+    ('graphite2::GlyphCache::~GlyphCache', '_boxes'): 'null test of the array whose elements are released',
+    ('graphite2::CachedCmap::~CachedCmap', 'm_isBmpOnly'): 'the number of blocks',
+}
+
+
+def dtorguards(run, fx):
+    """OWNFIELD: what a destructor releases it releases whenever it is there: the only conditions in front of a free / delete in a
+    destructor are about the released member itself (a null test, the loop over its elements); a release that depends on ANOTHER
+    member (`if (m_freeJustifies)` in front of the loop that frees the justification blocks: the free LIST is empty exactly when all
+    records are in use) leaks whenever that member happens to say no.  Expected count of such guards: the four tabled ones."""
+    import re as _re
+    n, bad = 0, []
+    for fn in fx.all_fns():
+        if not fn.file.startswith('src/') or '~' not in fn.q or fn.f.get('implicit'):
+            continue
+        for _, e in fn.elements():
+            a = None
+            if e['k'] == 'CXXDeleteExpr' and e.get('c'):
+                a = e['c'][0]
+            elif e['k'] == 'CallExpr' and (e.get('fq') or '') == 'free' and e.get('args'):
+                a = e['args'][0]
+            if a is None:
+                continue
+            n += 1
+            flds = {x.get('d').split('::')[-1] for x in fn.walk(a) if x['k'] == 'MemberExpr' and x.get('dk') == 'Field'}
+            for f in dom.facts_at(fn, e['i']):
+                txt = f[0] + ' ' + f[2]
+                if '.end()' in txt or '.begin()' in txt:
+                    continue                    # the loop over a member container
+                for g in _re.findall(r'this->(\w+)', txt):
+                    if g not in flds and (fn.q, g) not in DTOR_GUARDS_OK:
+                        bad.append((fn, e, g, f))
+    inst = 'a destructor releases a member whatever its other members say'
+    if n < 30:
+        run.broken('OWNFIELD', inst, 'only %d releases in destructors seen' % n)
+    elif bad:
+        fn, e, g, f = bad[0]
+        run.violated('OWNFIELD', inst, fn.loc(e), '%s reaches `%s` only when `%s %s %s`: the release depends on the member %s, which says nothing about whether there is something to release -- when it '
+                     'says no, the allocation survives the object' % (fn.q.split('graphite2::')[-1], fn.render(e)[:50], f[0], f[1], f[2], g))
+    else:
+        run.held('OWNFIELD', inst, '', '%d releases in destructors; guards on other members only where tabled (%d)' % (n, len(DTOR_GUARDS_OK)))
+
+
 def run(run):
     E = ER.setup(run)
     fx = E.fx
@@ -1181,6 +1227,7 @@ def run(run):
     guarded('OWNFIELD', lambda: freenull(run, fx))
     guarded('OWNLOCAL', lambda: ownlocal(run, fx, None))
     guarded('OWNFIELD', lambda: codemove_exec(run, fx))
+    guarded('OWNFIELD', lambda: dtorguards(run, fx))
     if not run.cfg_tag and not run.cfg_map:
         guarded('OWNFIELD', lambda: logclose(run))
     from . import noescape
